@@ -263,3 +263,14 @@ Proof.
   unfold stream_new. intros K Kn. injection K as K1 K2. rewrite <- K1 in Kn. unfold no_length in Kn.
   rewrite FilterProofsDict.dict_get_set_same in Kn. exact Kn.
 Qed.
+
+Lemma flat_map_unique {A B} (f : A -> list B) : forall l s s' n,
+  NoDup (flat_map f l) -> In s l -> In s' l -> In n (f s) -> In n (f s') -> s = s'.
+Proof.
+  induction l as [|z l IH]; intros s s' n H Hs Hs' Hn Hn'; [contradiction|]. cbn [flat_map] in H.
+  destruct Hs as [->|Hs], Hs' as [->|Hs'].
+  - reflexivity.
+  - exfalso. apply (NoDup_app_common _ _ H n Hn). apply in_flat_map. exists s'. split; assumption.
+  - exfalso. apply (NoDup_app_common _ _ H n Hn'). apply in_flat_map. exists s. split; assumption.
+  - apply (IH s s' n (NoDup_app_r _ _ H) Hs Hs' Hn Hn').
+Qed.
